@@ -15,6 +15,10 @@ E1 bounded-exhaustive enumeration on the real Reaction / RDNetwork:
 
 Every accepted reaction with constants is also split() and its K compared with kf/kr in SI.
 """
+import json
+import os
+import shutil
+import tempfile
 from fractions import Fraction as F
 
 from mc import core, pool, uq
@@ -22,7 +26,8 @@ from mc.ref import si
 from mc.ref import reaction as R
 
 core.setup_paths()
-from strengths.rdnetwork import Reaction, RDNetwork, Species, rdnetwork_from_dict, reaction_from_dict  # noqa: E402
+from strengths.rdnetwork import Reaction, RDNetwork, Species, rdnetwork_from_dict, reaction_from_dict, load_rdnetwork  # noqa: E402
+from strengths.rdsystem import load_rdsystem  # noqa: E402
 from strengths.units import UnitValue, UnitsSystem  # noqa: E402
 
 TOL = 1e-9
@@ -840,27 +845,49 @@ def _case_kfromdict(case, out):
     n, m = case["n"], case["m"]
     parent, own = tuple(case["parent"]), tuple(case["own"])
     df, dr = R.k_dimension(n), R.k_dimension(m)
-    d = {"stoichiometry": text, "k+": 7, "k-": 0.375, "label": "R"}
+    kfkey, krkey = case.get("kkeys", ["k+", "k-"])          # documented aliases: "kf", "kr"
+    ukey = case.get("ukey", "units")                         # documented aliases: "units_system", "units system", "u"
+    d = {"stoichiometry": text, kfkey: 7, krkey: 0.375, "label": "R"}
     spec = case["units"]
     if spec == "dict":
-        d["units"] = uq.sysdict(own)
+        d[ukey] = uq.sysdict(own)
     elif spec != "absent":
-        d["units"] = spec
+        d[ukey] = spec
     expect = {"absent": parent, "inherit": parent, "default": si.DEFAULT, "dict": own}[spec]
-    if case["route"] == "reaction_from_dict":
+    route = case["route"]
+    species = [{"label": l} for l in ("A", "B", "C")]
+    if route == "reaction_from_dict":
         r = reaction_from_dict(d, uq.mk_sys(parent))
-    else:
-        net = rdnetwork_from_dict({"units": uq.sysdict(parent), "species": [{"label": l} for l in ("A", "B", "C")],
-                                   "reactions": [d]})
+    elif route == "rdnetwork_from_dict":
+        net = rdnetwork_from_dict({"units": uq.sysdict(parent), "species": species, "reactions": [d]})
         r = net.reactions[0]
-    what = "reaction dict %r inside units %s (%s)" % (d, parent, case["route"])
+    elif route in ("load_rdnetwork", "load_rdsystem"):
+        # the network is a separate JSON file WITHOUT a units key ("inherit"): it takes the system given to
+        # load_rdnetwork, resp. the units of the system file that names it
+        tmp = tempfile.mkdtemp(prefix="c19_", dir=os.environ.get("VERIF_TMP", "/tmp"))
+        try:
+            with open(os.path.join(tmp, "network.json"), "w", encoding="utf-8") as f:
+                json.dump({"species": species, "reactions": [d]}, f, ensure_ascii=False)
+            if route == "load_rdnetwork":
+                r = load_rdnetwork(os.path.join(tmp, "network.json"), uq.mk_sys(parent)).reactions[0]
+            else:
+                with open(os.path.join(tmp, "system.json"), "w", encoding="utf-8") as f:
+                    json.dump({"units": uq.sysdict(parent), "network": "network.json", "space": {"cell_volume": 1}}, f,
+                              ensure_ascii=False)
+                r = load_rdsystem(os.path.join(tmp, "system.json")).network.reactions[0]
+        finally:
+            shutil.rmtree(tmp, ignore_errors=True)
+    else:
+        raise ValueError(route)
+    what = "reaction dict %r inside units %s (%s)" % (d, parent, route)
     if _us3(r.units_system) != tuple(expect):
-        out.append(("%s:from_dict:units-system:%s:%s" % (PID, spec, case["route"]),
+        out.append(("%s:from_dict:units-system:%s:%s:%s" % (PID, spec, ukey.replace(" ", "_"), route),
                     "%s: the reaction's units system is %s, documented %s" % (what, _us3(r.units_system), tuple(expect))))
     for name, got, num, dim in (("kf", r.kf, 7, df), ("kr", r.kr, 0.375, dr)):
         p = _const_problem(got, dim, F(num) * si.si_scale(expect, dim), bare=(num, expect))
         if p:
-            out.append(("%s:from_dict:%s:bare-number:%s:%s" % (PID, name, spec, case["route"]), "%s: %s %s" % (what, name, p)))
+            out.append(("%s:from_dict:%s:bare-number:%s:%s:%s" % (PID, name, spec, ukey.replace(" ", "_"), route),
+                        "%s: %s %s" % (what, name, p)))
 
 
 # ---- E2: operation histories on ONE Reaction object ---------------------------------------------------
@@ -1274,6 +1301,15 @@ def _spaces(tier):
                     "kfromdict", [("n", ORDERS), ("m", ORDERS), ("parent", sys8), ("units", FD_UNITS),
                                   ("route", ["reaction_from_dict", "rdnetwork_from_dict"])],
                     const={"form": "two", "own": si.MIXED[4]}))
+    ukeys = [("absent", "units")] + [(sp_, k) for sp_ in ("inherit", "default", "dict")
+                                     for k in ("units", "units_system", "units system", "u")]      # 13
+    sp.append(Space("kfromdict/keys+files: orders {0/0,1/1,2/1,0/2,3/2,8/8} x 8 enclosing systems x 13 (units value, spelling of the units key: units / units_system / 'units system' / u) x {k+ k-, kf kr} x {reaction_from_dict, rdnetwork_from_dict, load_rdnetwork(file, parent), load_rdsystem(system.json naming network.json)}",
+                    "kfromdict", [("nm", [(0, 0), (1, 1), (2, 1), (0, 2), (3, 2), (8, 8)]), ("parent", sys8), ("uk", ukeys),
+                                  ("kkeys", [["k+", "k-"], ["kf", "kr"]]),
+                                  ("route", ["reaction_from_dict", "rdnetwork_from_dict", "load_rdnetwork", "load_rdsystem"])],
+                    build=lambda d: {"sub": "kfromdict", "form": "two", "own": si.MIXED[4], "n": d["nm"][0], "m": d["nm"][1],
+                                     "parent": d["parent"], "units": d["uk"][0], "ukey": d["uk"][1], "kkeys": d["kkeys"],
+                                     "route": d["route"]}))
     # -- networks
     rspecs = [(eq, lab) for eq in NET_EQS for lab in NET_RLABELS]          # 18
     sp.append(Space("net: species lists of length <=3 over {A,B,C} (40) x reaction lists of length <=2 over 6 equations x labels {None,r1,r2} (343)",
